@@ -1,7 +1,7 @@
 (* C16 — the signature policy means the same at provisioning, first load, refresh and
    after a restart.  Property theorems only.  The policy of the two intake functions
    (loadCRL, updateCrlEntry) is regenerated from the Go source on every run. *)
-From Verif Require Import Base Repo RepoProofs RepoProps Validator.
+From Verif Require Import Base Repo RepoProofs RepoProps ProvisionProofs Validator.
 From Verif.gen Require GenFacts.
 
 (* both intake paths accept exactly the same answers and record the same signer, for every
@@ -45,6 +45,20 @@ Example C16_reconfiguration_nonvacuous :
   snd (run_steps (cfg_disk SigVerifyLog) (fst (run_segments [seg_log] init_state), restart (cfg_disk SigVerifyLog) (snd (run_segments [seg_log] init_state))) [SHandshake cert_103]) = [Some VAccept] /\
   snd (run_steps (cfg_disk SigVerify) (fst (run_segments [seg_log] init_state), restart (cfg_disk SigVerify) (snd (run_segments [seg_log] init_state))) [SHandshake cert_103]) = [Some VError].
 Proof. exact reconfiguration_example. Qed.
+
+(* the provision-time path: under 'verify' provisioning returns without error only if every configured location
+   serves a parseable list whose signature verifies under one of the trusted signer certificates; and the
+   states provisioning produces satisfy the invariant all the theorems above rest on *)
+Theorem C16_provision_verify : forall cfg ev trusted locs st st' loc,
+  r_sigmode cfg = SigVerify -> provision cfg ev trusted locs (restart cfg st) = Some st' -> In loc locs ->
+  exists l, ev loc = Serve l /\ l_parse_ok l = true /\ l_sig_ok l = true /\ existsb (N.eqb (l_signer l)) trusted = true.
+Proof. exact provision_verify. Qed.
+Print Assumptions C16_provision_verify.
+
+Theorem C16_provision_keeps_invariant : forall cfg ev trusted locs st st',
+  Inv cfg st -> provision cfg ev trusted locs st = Some st' -> Inv cfg st'.
+Proof. intros cfg ev trusted locs st st'. apply (provision_inv D_cfg D_cfg_accepts D_cfg_adopt). Qed.
+Print Assumptions C16_provision_keeps_invariant.
 
 (* under 'verify_log' and 'none' refreshes keep succeeding whatever the signer *)
 Theorem C16_lenient_refresh : forall cfg ev id e l avail,
